@@ -89,8 +89,34 @@ def tau2_scenario(chk, pname, K, second=False):
         d = (cells(V.out["lp1"])[0] - cells(V.out["lp2"])[0]) - (ig(t1) - ig(t2))
         tol = z3.RealVal("1/100000")
         return hyps + [G > 0], z3.And(d <= tol, d >= -tol)
+    def replay_far(ob, model, rng):
+        """generic replay first; then a far-field probe the generic tolerance cannot see: with the coefficients at zero the draw b*/Gamma(a*) is
+        proportional to the prior scale b for a fixed key, also for very small b (compared on the ratio, i.e. relatively)"""
+        from ..harness import build_query, replay_model
+        cr, ob.custom_replay = ob.custom_replay, None
+        try:
+            hy, gl = build_query(ob)
+            rp = replay_model(ob, model, rng, hy, gl)
+        finally:
+            ob.custom_replay = cr
+        if rp.get("reproduced"):
+            return rp
+        beta0 = jnp.zeros_like(free0[names["beta"]])
+        for sd in range(3):
+            k_ = jax.random.PRNGKey(100 + sd)
+            d = {}
+            for bv in (0.5, 1e-6, 1e-10):
+                st = iface.update_state({**free0, names["beta"]: beta0, names["b"]: jnp.asarray(bv, dtype=jnp.float32)}, full0)
+                d[bv] = float(np.asarray(kern._transition_fn(k_, st)[tname], dtype=np.float64))
+            for bv in (1e-6, 1e-10):
+                want = d[0.5] * (bv / 0.5)
+                if not (d[bv] > 0 and abs(d[bv] / want - 1.0) <= 1e-3):
+                    return dict(reproduced=True, inputs=dict(key=[0, 100 + sd], coefficients="0", a=float(free0[names["a"]]), b=bv), observed=dict(draw=d[bv], draw_at_b_0_5=d[0.5], expected_by_scale_equivariance=want),
+                                note="same key, coefficients zero: the inverse-gamma draw b/G must scale with b; it does not for a small prior scale")
+        rp["note"] = (rp.get("note", "") + " | far-field probe (b = 1e-6, 1e-10, coefficients 0): draws scale with b").strip()
+        return rp
     ob = Obligation(f"tau2_gibbs_kernel[{pname}]: the draw b*/Gamma(a*) is inverse-gamma(a*, b*) and log pi(tau) - log pi(tau') = log IG(tau; a*, b*) - log IG(tau'; a*, b*) "
-                    "with pi the model's joint density as a function of tau2 alone", [enc], goal, signature=f"tau2:{pname}", timeout_s=120)
+                    "with pi the model's joint density as a function of tau2 alone", [enc], goal, signature=f"tau2:{pname}", timeout_s=120, replay=replay_far)
     return [ob], enc
 
 
